@@ -26,6 +26,7 @@ type Call struct {
 	InPipe    bool
 	StopAfter int // stream outputs: number of chunks to read before closing (-1: to the end)
 	Opts      []compose.Option
+	Ctx       context.Context // optional base context (cancellation)
 }
 
 // CallResult is what the caller observed.
@@ -51,7 +52,11 @@ func doCall(env *Env, r compose.Runnable[M, M], c *Call) (res *CallResult) {
 			res.EndSeq = env.Seq()
 		}
 	}()
-	ctx := WithTag(context.Background(), c.Tag)
+	base := c.Ctx
+	if base == nil {
+		base = context.Background()
+	}
+	ctx := WithTag(base, c.Tag)
 	var inStream *schema.StreamReader[M]
 	if c.Paradigm == PCollect || c.Paradigm == PTransform {
 		chunks := chunksOf(c.In, c.InCut)
@@ -132,6 +137,8 @@ func errClass(err error) string {
 		return ErrNoTasks
 	case strings.Contains(m, "duplicated key"):
 		return ErrMerge
+	case strings.Contains(m, "key not found in input"):
+		return ErrMissingKey
 	}
 	return "other:" + firstLine(m)
 }
@@ -255,6 +262,15 @@ func checkAgainstModel(o *core.Outcome, prefix string, p *Plan, env *Env, c *Cal
 		return
 	}
 	got := errClass(res.Err)
+	okAlt := false
+	for _, a := range mr.AltErr {
+		if sameErr(a, got) {
+			okAlt = true
+		}
+	}
+	if okAlt {
+		return
+	}
 	if !sameErr(mr.Err, got) {
 		o.Violate(prefix+"/result-mismatch", fmt.Sprintf("%s via %s: model says error class %q, run returned %q (%v)", c.Tag, paradigmNames[c.Paradigm], mr.Err, got, res.Err))
 		return
